@@ -170,6 +170,84 @@ def h_two_periodic(a, inst):
         [t for t in c2 if t < t0] == [t for t in x2 if t < t0]
 
 
+# ------------------------------------------------------------------ a wrapped scheduler that hands every action its own scheduler
+from reactivex.scheduler.scheduler import Scheduler as _Scheduler  # noqa: E402
+
+
+class _Handed(_Scheduler):
+    """what NewThreadScheduler / ThreadPoolScheduler do: the scheduler object passed to an action is private to that action"""
+
+    def __init__(self, base, k, log):
+        self.base, self.k, self.log = base, k, log
+
+    @property
+    def now(self):
+        return self.base.now
+
+    def schedule(self, action, state=None):
+        self.log.append(("schedule", self.k))
+        return self.base.schedule(action, state)
+
+    def schedule_relative(self, duetime, action, state=None):
+        self.log.append(("relative", self.k))
+        return self.base.schedule_relative(duetime, action, state)
+
+    def schedule_absolute(self, duetime, action, state=None):
+        self.log.append(("absolute", self.k))
+        return self.base.schedule_absolute(duetime, action, state)
+
+
+class _PerAction(VirtualTimeScheduler):
+    def __init__(self):
+        super().__init__()
+        self.handed, self.log = 0, []
+
+    def invoke_action(self, action, state=None):
+        self.handed += 1
+        ret = action(_Handed(self, self.handed, self.log), state)
+        from reactivex import abc as _abc
+        from reactivex.disposable import Disposable as _D
+        return ret if isinstance(ret, _abc.DisposableBase) else _D()
+
+
+@harness(instances=lambda tier: [{"n": n} for n in (2, 3)], rel=I(0, 1, n=lambda i: i["n"]), boom=I(0, 3), timeout=(60, 600), stock=False)
+def h_handed_scheduler(a, inst):
+    """n outer actions on a CatchScheduler over a scheduler that hands each action a scheduler of its own; every outer action
+    schedules an inner one through the scheduler it was given: that request must reach the scheduler handed to *this* outer action
+    (not the one handed to an earlier action), and an exception of the inner action still reaches the handler"""
+    base = _PerAction()
+    handled = []
+    cs = CatchScheduler(base, lambda ex: (handled.append(ex), True)[1])
+    n = inst["n"]
+    ran = []
+    err = Injected("inner")
+
+    def outer(i):
+        def action(scheduler, state):
+            def inner(sc, st):
+                ran.append(i)
+                if a.boom == i + 1:
+                    raise err
+            if a.rel[i]:
+                scheduler.schedule_relative(1.0, inner)
+            else:
+                scheduler.schedule(inner)
+        return action
+
+    for i in range(n):
+        cs.schedule_relative(float(i + 1) * 10.0, outer(i))
+    base.start()
+    cover("ran")
+    # outer action i is the (something)-th invocation; its recursive request carries the index handed to that very invocation:
+    # requests are logged in the order the outer actions ran, each with a distinct, increasing hand-out index
+    ks = [k for _, k in base.log]
+    if len(ks) != n or ks != sorted(set(ks)):
+        return False
+    if sorted(ran) != list(range(n)):
+        return False
+    return handled == ([err] if 1 <= a.boom <= n else [])
+
+
 ENCODED = ["reactivex/scheduler/catchscheduler.py", "reactivex/scheduler/virtualtimescheduler.py", "reactivex/scheduler/periodicscheduler.py"]
 BOUNDS = {"quick": "recursive scheduling programs of 2..3 nodes (each: schedule / schedule_relative(-1..2) / schedule_absolute(now+0..3), "
                    "raises or not, scheduled from outside or from inside an earlier node through the scheduler it was handed), handler "
